@@ -218,6 +218,16 @@ theorem flags_documented_bits_blind (nn ms : Nat) (mx en eb su wf : Bool) :
   simp only [Aegean.Spec.C03.flagsOK, decide_eq_true_eq]
   exact component_lt _ _ (fitIs_lt en eb su) (summit_lt _ (estimate_lt nn ms) mx) wf
 
+/-- the same for every component of an island, whatever `max_summits`, the component count and the
+    fit outcome (the flag words the correspondence compares with the catalogue) -/
+theorem flags_documented_bits_island (nn ms : Nat) (mxs : Option Nat) (nc : Nat) (eb su : Bool)
+    (wcs : List Bool) :
+    ∀ f ∈ blindIslandFlags nn ms mxs nc eb su wcs, Aegean.Spec.C03.flagsOK f = true := by
+  intro f hf
+  simp only [blindIslandFlags, List.mem_map] at hf
+  obtain ⟨j, _, rfl⟩ := hf
+  exact flags_documented_bits_blind _ _ _ _ _ _ _
+
 theorem refitFlags_eq (inp : Nat) (nf wf : Bool) (stage : Nat) :
     refitFlags inp nf wf stage =
       if stage < 2 then (componentFlags inp (if nf = true then NOTFIT else 0) wf ||| PRIORIZED) ||| FIXED2PSF
